@@ -20,7 +20,10 @@ RULE = (
     "stubs must canonicalise (identity-aware for call results) equal to the reference VM's return "
     "value, and the multisets of call events must be equal. Non-trivial = nested container, "
     "shared reference, instance with state, memo GET of a mutable, or BUILD; distinct = distinct "
-    "byte strings."
+    "byte strings. Programs that mutate a container after it was passed to a call (excluded above "
+    "because of KF-C03-2) are judged on the final value only, with call results rendered with "
+    "their arguments' current contents: an exhaustive family (container kind x call form x "
+    "mutating opcode) plus random programs."
 )
 ASSUMPTIONS = [
     "reference = pickle._Unpickler (CPython 3.12) over inert stubs; NEWOBJ/NEWOBJ_EX normalised "
@@ -149,10 +152,66 @@ def judge(data, prog=None):
     return None, "ran"
 
 
+def judge_value_only(data):
+    """programs that mutate a container after it was passed to a call (the call-site clause for
+    them is known finding KF-C03-2): only the final value is compared - the VM's callee holds a
+    reference, so the value at STOP contains the mutation"""
+    o = diff.examine(data)
+    if o.kind != "ran":
+        return None, o.kind  # incl. not-runnable: the decompile of such programs may refer to names too early
+    try:
+        from vlib.refvm import canon_live
+
+        want = canon_live(o.ref.value)
+        got = canon_live(o.ex.env["result"])
+    except diff.Cyclic:
+        return None, "cyclic"
+    except RecursionError:
+        return None, "cyclic"
+    if want != got:
+        return (
+            Failure({"hex": data.hex(), "value_only": True},
+                    f"decompile of {data!r} (a container is mutated after it was passed to a call) does not rebuild "
+                    f"the VM's final value", {"source": o.dec.src, "vm": str(want)[:600], "decompile": str(got)[:600]}),
+            "ran",
+        )
+    return None, "ran"
+
+
+def captured_programs():
+    """a container is passed to a call (in every call-making form), then mutated through the memo,
+    and both the call result and the container are part of the value"""
+    G = b"cverif_objs\nmake\n"
+    conts = {
+        "list": (b"]", (b"K\x01a", b"(K\x01K\x02e", b"(e")),
+        "dict": (b"}", (b"K\x01K\x02s", b"(K\x01K\x02u", b"(K\x01K\x02K\x03K\x04u")),
+        "set": (b"\x8f", (b"(K\x01\x90", b"(K\x01K\x02\x90")),
+    }
+    for cname, (empty, muts) in conts.items():
+        c = empty + b"q\x00"
+        calls = {
+            "REDUCE(arg)": G + c + b"\x85R",
+            "REDUCE(arg, None)": G + b"(" + c + b"NtR",
+            "REDUCE((arg,))": G + c + b"\x85\x85R",
+            "NEWOBJ": G + c + b"\x85\x81",
+            "OBJ": b"(" + G + c + b"o",
+            "INST": b"(" + c + b"iverif_objs\nmake\n",
+            "BUILD state": G + b")R" + c + b"b",
+            "BUILD dict value": G + b")R}Vk\n" + c + b"sb",
+        }
+        for call_name, call in calls.items():
+            for mut in muts:
+                for proto in (b"", b"\x80\x04"):
+                    yield f"{cname} / {call_name} / {mut!r}", proto + call + b"h\x00" + mut + b"\x86."
+                    yield f"{cname} / {call_name} / {mut!r} / twice", proto + call + b"h\x00" + mut + b"0h\x00" + mut + b"\x86."
+
+
 def replay(case):
     data = bytes.fromhex(case["hex"])
     if case.get("plain"):
         return replay_plain(data)
+    if case.get("value_only"):
+        return judge_value_only(data)[0]
     return judge(data)[0]
 
 
@@ -179,6 +238,7 @@ def shards(tier):
     out = _progdiff.shards(tier, quick_len=4, thorough_len=5, container_len=(5, 6), alias_len=(6, 8), kwargs_len=(7, 8))
     n = 400 if tier == "quick" else 6000
     out += [{"kind": "plain", "n": n, "idx": i} for i in range(16)]
+    out += [{"kind": "captured", "n": 300 if tier == "quick" else 8000, "idx": i} for i in range(4)]
     runs = 30000 if tier == "quick" else 1500000
     out += [{"kind": "atheris", "runs": runs, "idx": i} for i in range(1 if tier == "quick" else 6)]
     return out
@@ -195,6 +255,28 @@ def run_shard(spec, seed):
             res, f"c05-{spec['idx']}", os.path.join(os.path.dirname(__file__), "prog_fuzz.py"), ["C05"],
             spec["runs"], seed, seeds=FUZZ_SEEDS if spec["idx"] % 2 == 0 else (), nt=decode.in_typed_domain,
         )
+        return res
+    if spec["kind"] == "captured":
+        from vlib import asm, vocab
+
+        res = ShardResult()
+        prof = asm.full_profile(vocab.ASM_GLOBS, no_mutation_after_capture=False)
+
+        def body(prog):
+            if not any(k.startswith("KF-C03-2") for k in prog.excluded) and "mutated-after-capture" not in prog.tags:
+                pass
+            f, klass = judge_value_only(prog.data)
+            res.note(prog.data, "BUILD" in prog.tags or prog.ncalls > 0, klass=[klass, "captured"], sample={"captured": prog.data.hex()})
+            return f
+
+        if spec["idx"] == 0:
+            for label, data in captured_programs():
+                f, klass = judge_value_only(data)
+                res.note(data, True, klass=[klass, "captured-family"], sample={"family": label, "hex": data.hex()})
+                if f is not None:
+                    res.failures.append(f)
+                    return res
+        hypothesis_search(asm.programs(prof, max_len=24), body, seed, spec["n"], res, batch=500)
         return res
     if spec["kind"] != "plain":
         return _progdiff.run_shard(spec, seed, judge, nt_prog, nt_bytes)
